@@ -62,7 +62,7 @@ class WhipScan(Task):
         disk = inp["disk"]
         v = out.value
         ok = isinstance(v, tuple) and len(v) == 2
-        ctx.oblige("post.returns-pair", ok, "P")
+        ctx.structure("post.returns-pair", ok)
         if ok:
             ctx.oblige("post.every-fab-index-range-in-disk-order", veq(ctx, v[0], SymSeq(disk.m, inp["idx"])), "P")
             ctx.oblige("post.every-fab-component-in-disk-order", veq(ctx, v[1], SymSeq(disk.m, inp["arr"])), "P")
